@@ -9,10 +9,13 @@
 //!   * `ser jhex hashid|excessid|commit` lines: the handlers' id parsers (util::from_hex, then
 //!     Hash::from_vec / Commitment::from_vec / the 33-byte test of get_kernel).
 //!
-//!   serapi          registered run: WITHOUT the two inputs classes on which the real code panics
-//!                   (an OutputPrintable object without `block_height`; range_proof() on a proof
-//!                   string of fewer than 675 bytes) - see the decser report of session 9
-//!   serapi probe    those inputs (#STAT lines only)
+//!   serapi          registered run: every key subset of an OutputPrintable object, range_proof() on proof
+//!                   strings of every length class. The two recorded and repaired defects are replayed as
+//!                   regression probes: an object without `block_height` (f960854e0,
+//!                   C11-outputprintable-missing-block-height-panics) and range_proof() on fewer than 675
+//!                   bytes (5eec0a242, C11-outputprintable-short-proof-panics); a panic there is
+//!                   `#ORACLE-FAIL C11 outputprintable-…` again
+//!   serapi probe    the same inputs as #STAT lines
 
 use grin_api::{
 	BlockHeaderPrintable, BlockListing, BlockPrintable, CompactBlockPrintable, LocatedTxKernel, Output as ApiOutput,
@@ -221,7 +224,7 @@ fn drive<T: Serialize + DeserializeOwned>(cx: &mut Cx, name: &str, x: &T, skip_r
 		match catch(AssertUnwindSafe(|| serde_json::from_str::<T>(&text).map(|y| after(&y)))) {
 			Ok(Ok(_)) => cx.stat(&format!("{} mutant accepted", name)),
 			Ok(Err(_)) => cx.stat(&format!("{} mutant refused", name)),
-			Err(msg) => cx.fail("C11", format!("{} JSON reader (or a helper decoder on the accepted value) panicked ({}) on {}", name, msg.replace('\n', " "), if text.len() > 2500 { format!("{}… ({} bytes)", &text[..2500], text.len()) } else { text.clone() })),
+			Err(msg) => cx.fail("C11", format!("{}{} JSON reader (or a helper decoder on the accepted value) panicked ({}) on {}", if msg.contains("unwrap") { "outputprintable-missing-block-height? " } else if msg.contains("range end index") { "outputprintable-short-proof? " } else { "" }, name, msg.replace('\n', " "), if text.len() > 2500 { format!("{}… ({} bytes)", &text[..2500], text.len()) } else { text.clone() })),
 		}
 	}
 	// duplicate keys
@@ -236,15 +239,9 @@ fn drive<T: Serialize + DeserializeOwned>(cx: &mut Cx, name: &str, x: &T, skip_r
 	}
 }
 
-/// range_proof() is only called where the real code does not panic: no proof, not hex, or at least 675 bytes
+/// the helper decoders that follow the JSON reader, on every accepted value
 fn safe_range_proof(o: &OutputPrintable) {
-	let safe = match &o.proof {
-		None => true,
-		Some(s) => grin_util::from_hex(s).map(|b| b.len() >= 675).unwrap_or(true),
-	};
-	if safe {
-		let _ = o.range_proof();
-	}
+	let _ = o.range_proof();
 	let _ = o.commit();
 }
 
@@ -259,9 +256,9 @@ fn finish_lines(cx: &mut Cx, with_panicking: bool) {
 	};
 	for mask in 0u32..256 {
 		let has = |i: usize| mask & (1 << i) != 0;
-		// the input class on which the real reader panics: the five tested keys present, block_height absent
+		// the input class on which the unrepaired reader panicked: the five tested keys present, block_height absent
 		let panics = has(0) && has(1) && has(2) && has(4) && has(7) && !has(5);
-		if panics != with_panicking {
+		if with_panicking && !panics {
 			continue;
 		}
 		let mut m = serde_json::Map::new();
@@ -285,7 +282,10 @@ fn finish_lines(cx: &mut Cx, with_panicking: bool) {
 		} else {
 			cx.out.line(&format!("ser jopfin {}", flags.join(" ")), res);
 			if res == "panic" {
-				cx.fail("C11", format!("OutputPrintable JSON reader panicked on {}", text));
+				cx.fail("C11", format!("{}OutputPrintable JSON reader panicked on {}", if panics { "outputprintable-missing-block-height: " } else { "" }, text));
+			}
+			if panics {
+				cx.stat("regression probe: object without block_height");
 			}
 		}
 	}
@@ -306,7 +306,7 @@ fn rp_line(cx: &mut Cx, proof: Option<&str>, probe: bool) {
 	}
 	cx.out.line(&format!("ser jrp {}", proof.map(|s| hex(s.as_bytes())).unwrap_or_else(|| "none".to_string())), &res);
 	if res == "panic" {
-		cx.fail("C11", format!("OutputPrintable::range_proof() panicked on the proof string with UTF-8 bytes {}", proof.map(|s| hex(s.as_bytes())).unwrap_or_default()));
+		cx.fail("C11", format!("outputprintable-short-proof: OutputPrintable::range_proof() panicked on the proof string with UTF-8 bytes {}", proof.map(|s| if s.len() > 120 { format!("{}… ({} bytes)", hex(&s.as_bytes()[..120]), s.len()) } else { hex(s.as_bytes()) }).unwrap_or_default()));
 	}
 	cx.stat("range_proof helper");
 }
@@ -340,14 +340,12 @@ fn id_line(cx: &mut Cx, kind: &str, s: &str) {
 
 fn registered(cx: &mut Cx) {
 	finish_lines(cx, false);
-	// range_proof(): none, not hex, 675 and more bytes (fewer than 675 bytes: `probe`)
+	// range_proof(): none, every odd string (hex of a few bytes among them), 0 .. 5000 bytes
 	rp_line(cx, None, false);
 	for s in ODD_STRINGS.iter() {
-		if grin_util::from_hex(s).is_err() {
-			rp_line(cx, Some(s), false);
-		}
+		rp_line(cx, Some(s), false);
 	}
-	for l in [675usize, 676, 700, 1350, 5000] {
+	for l in [1usize, 2, 33, 100, 337, 673, 674, 675, 676, 700, 1350, 5000] {
 		let h = hx(&cx.rng.bytes(l));
 		rp_line(cx, Some(&h), false);
 		rp_line(cx, Some(&format!("0x{}", h)), false);
@@ -366,9 +364,8 @@ fn registered(cx: &mut Cx) {
 	}
 	let n = if tier_thorough() { 12 } else { 4 };
 	for i in 0..n {
-		// `block_height` is never removed from an OutputPrintable object in this run (see `probe`)
 		let o = gen_output(&mut cx.rng, i);
-		drive(cx, "OutputPrintable", &o, &["block_height"], &safe_range_proof);
+		drive(cx, "OutputPrintable", &o, &[], &safe_range_proof);
 		let ao = ApiOutput::new(&commit(&mut cx.rng), cx.rng.next() >> cx.rng.below(64), cx.rng.next() >> cx.rng.below(64));
 		drive(cx, "Output", &ao, &[], &|y: &ApiOutput| {
 			let _ = y.commit.commit();
@@ -385,16 +382,16 @@ fn registered(cx: &mut Cx) {
 				outputs: vec![gen_output(&mut cx.rng, 0), gen_output(&mut cx.rng, 1)],
 				kernels: vec![gen_kernel(&mut cx.rng, 0), gen_kernel(&mut cx.rng, 2)],
 			};
-			drive(cx, "BlockPrintable", &b, &["block_height"], &|y: &BlockPrintable| y.outputs.iter().for_each(safe_range_proof));
+			drive(cx, "BlockPrintable", &b, &[], &|y: &BlockPrintable| y.outputs.iter().for_each(safe_range_proof));
 			let cb = CompactBlockPrintable {
 				header: gen_header(&mut cx.rng),
 				out_full: vec![gen_output(&mut cx.rng, 2)],
 				kern_full: vec![gen_kernel(&mut cx.rng, 1)],
 				kern_ids: vec![hx(&cx.rng.bytes(6)), hx(&cx.rng.bytes(6))],
 			};
-			drive(cx, "CompactBlockPrintable", &cb, &["block_height"], &|y: &CompactBlockPrintable| y.out_full.iter().for_each(safe_range_proof));
+			drive(cx, "CompactBlockPrintable", &cb, &[], &|y: &CompactBlockPrintable| y.out_full.iter().for_each(safe_range_proof));
 			let ol = OutputListing { highest_index: cx.rng.next(), last_retrieved_index: cx.rng.next(), outputs: vec![gen_output(&mut cx.rng, 3)] };
-			drive(cx, "OutputListing", &ol, &["block_height"], &|y: &OutputListing| y.outputs.iter().for_each(safe_range_proof));
+			drive(cx, "OutputListing", &ol, &[], &|y: &OutputListing| y.outputs.iter().for_each(safe_range_proof));
 			let bl = BlockListing { last_retrieved_height: cx.rng.next(), blocks: vec![] };
 			drive(cx, "BlockListing", &bl, &[], &|_| ());
 		}
